@@ -351,3 +351,103 @@ Proof.
   unfold explicit_apartb, explicit_apart, explicit_above_singletons. rewrite forallb_forall. intros H ws ev I.
   specialize (H _ I). cbn in H. apply forallb_Forall in H. eapply Forall_impl; [|exact H]. cbn. intros r A R. lia.
 Qed.
+
+(* ====================================================================================== *)
+(* no two rows in a workspace's log share a storage ID                                     *)
+(* ====================================================================================== *)
+(* what the system cannot enforce by itself when an event arrives: a sync client must not send an explicit ID the
+   workspace already stored (F45: nothing checks it before the log is written), and a singleton is created once *)
+Definition event_fresh (w : wstate) (ev : event) : Prop :=
+  Forall (fun r => is_raw (r_id r) = false -> ~ In (r_id r) (w_log w)) (e_arg ev ++ e_creates ev)
+  /\ Forall (fun r => r_single r <> 0 -> ~ In (r_single r) (w_log w)) (e_creates ev).
+
+Fixpoint hist_fresh (au ps : bool) (st : state) (h : list iop) : Prop :=
+  match h with
+  | [] => True
+  | IRestart :: t => hist_fresh au ps (step_gen au ps st IRestart) t
+  | IEvent ws ev :: t =>
+      (valid ev = true -> event_fresh (st ws) ev)
+      /\ hist_fresh au ps (upd st ws (fst (step_event_gen au ps (st ws) ev))) t
+  end.
+
+Lemma NoDup_app_intro {T} (a b : list T) :
+  NoDup a -> NoDup b -> (forall x, In x b -> ~ In x a) -> NoDup (a ++ b).
+Proof.
+  intros Ha Hb D. induction Ha as [|x a NI ND IH]; cbn; [exact Hb|]. constructor.
+  - intros I. apply in_app_or in I. destruct I as [I|I]; [contradiction|]. apply (D x I). left. reflexivity.
+  - apply IH. intros y Iy J. apply (D y Iy). right. exact J.
+Qed.
+
+Lemma run_log_nodup au ps : forall h K st,
+  (forall ws, inv (N.of_nat (hist_rows h) + K) (st ws)) -> (forall ws, inv_u (st ws)) ->
+  (forall ws, NoDup (w_log (st ws))) ->
+  Forall (fun x => x + 1 + N.of_nat (hist_rows h) + K < two64) (hist_ids h) ->
+  singles_ok h -> au = true -> c04_sync_prepass = true -> explicit_apart h ->
+  hist_fresh au ps st h ->
+  forall ws, NoDup (w_log (run_gen au ps st h ws)).
+Proof.
+  induction h as [|[ws0 ev|] t IH]; intros K st HI HU HN HB HS AU PP HX HFr; [exact HN| |].
+  - cbn [run_gen fold_left step_gen]. cbn [hist_rows hist_ids] in HI, HB. cbn [hist_fresh] in HFr. destruct HFr as [HF0 HFt].
+    apply Forall_app in HB. destruct HB as [HB1 HB2].
+    assert (HS0 : Forall single_ok (e_creates ev)) by (apply (HS ws0 ev); left; reflexivity).
+    assert (HSt : singles_ok t) by (intros a b I; apply (HS a b); right; exact I).
+    assert (HXt : explicit_apart t) by (intros a b I; apply (HX a b); right; exact I).
+    assert (HX0 : explicit_above_singletons ev) by (apply (HX ws0 ev); left; reflexivity).
+    destruct (step_event_gen au ps (st ws0) ev) as [w' o] eqn:E. cbn [fst] in *.
+    assert (I0 : inv (N.of_nat (ev_rows ev) + (N.of_nat (hist_rows t) + K)) (st ws0)).
+    { eapply inv_weaken; [|apply HI]. lia. }
+    assert (B0 : Forall (fun x => x + 1 + N.of_nat (ev_rows ev) + (N.of_nat (hist_rows t) + K) < two64) (ev_ids ev)).
+    { eapply Forall_impl; [|exact HB1]. cbn. intros; lia. }
+    assert (HI' : forall ws, inv (N.of_nat (hist_rows t) + K) (upd st ws0 w' ws)).
+    { intros ws. destruct (N.eq_dec ws ws0) as [->|NE].
+      - rewrite upd_same. eapply (step_event_inv au ps _ (st ws0) ev I0 B0 HS0). exact E.
+      - rewrite upd_other by exact NE. eapply inv_weaken; [|apply HI]. lia. }
+    assert (HU' : forall ws, inv_u (upd st ws0 w' ws)).
+    { intros ws. destruct (N.eq_dec ws ws0) as [->|NE].
+      - rewrite upd_same. eapply (step_event_inv_u au ps _ (st ws0) ev I0 B0 HS0 (HU ws0) (or_introl AU)). exact E.
+      - rewrite upd_other by exact NE. apply HU. }
+    assert (HB' : Forall (fun x => x + 1 + N.of_nat (hist_rows t) + K < two64) (hist_ids t)).
+    { eapply Forall_impl; [|exact HB2]. cbn. intros; lia. }
+    apply (IH K (upd st ws0 w') HI' HU'); try assumption.
+    intros ws. destruct (N.eq_dec ws ws0) as [->|NE]; [rewrite upd_same|rewrite upd_other by exact NE; apply HN].
+    destruct o as [|ev' rep].
+    + assert (W : w' = st ws0).
+      { unfold step_event_gen in E. destruct (valid ev).
+        - destruct (regenerate_gen au ps (w_next (st ws0)) ev) as [[a b] c]. discriminate.
+        - inversion E. reflexivity. }
+      rewrite W. apply HN.
+    + destruct (step_event_accepts au ps (st ws0) ev _ _ _ E) as (Hv & RG & LOG).
+      destruct (HF0 Hv) as [FE FS]. rewrite Forall_forall in FE, FS.
+      pose proof I0 as (A0 & _ & _).
+      pose proof (step_room (N.of_nat (hist_rows t) + K) (st ws0) ev I0 B0) as RM.
+      assert (RM0 : room 0 (w_next (st ws0)) (e_arg ev ++ e_creates ev)).
+      { destruct RM as [R1 R2]. split; [lia|]. eapply Forall_impl; [|exact R2]. cbn. intros; lia. }
+      rewrite LOG. apply NoDup_app_intro; [apply HN| |].
+      * exact (stored_ids_distinct_proved au ps _ ev _ ev' rep Hv HS0 A0 RM0 HX0 (or_introl PP) RG).
+      * intros x I J.
+        destruct (regenerate_passes au ps 0 (w_next (st ws0)) ev Hv A0 RM0 _ _ _ RG) as (pa & pc & g1 & repc & P).
+        destruct (event_id_cases au ps 0 (w_next (st ws0)) ev Hv HS0 A0 _ _ _ _ _ _ _ P x I) as [[L U]|[[r [IR [E1 NR]]]|[r [IR [E1 NZ]]]]].
+        -- pose proof (HU ws0) as UU. unfold inv_u in UU. rewrite Forall_forall in UU. specialize (UU x J). lia.
+        -- apply (FE r IR); [rewrite E1; exact NR|rewrite E1; exact J].
+        -- apply (FS r IR); [rewrite E1; exact NZ|rewrite E1; exact J].
+  - cbn [run_gen fold_left step_gen]. cbn [hist_rows hist_ids] in HI, HB. cbn [hist_fresh step_gen] in HFr.
+    assert (HSt : singles_ok t) by (intros a b I; apply (HS a b); right; exact I).
+    assert (HXt : explicit_apart t) by (intros a b I; apply (HX a b); right; exact I).
+    apply (IH K (fun k => recover (st k))); try assumption.
+    + intros ws. apply recover_inv. apply HI.
+    + intros ws. apply (recover_inv _ _ (HI ws)).
+    + intros ws. cbn. apply HN.
+Qed.
+
+Theorem log_ids_distinct_proved : forall au ps h,
+  bounded h -> singles_ok h -> au = true -> c04_sync_prepass = true -> explicit_apart h ->
+  hist_fresh au ps st_init h ->
+  forall ws, NoDup (w_log (run_gen au ps st_init h ws)).
+Proof.
+  intros au ps h [B1 B2] HS AU PP HX HF.
+  apply (run_log_nodup au ps h 0); try assumption.
+  - intros ws. apply init_inv. lia.
+  - intros ws. apply (init_inv 0). pose proof layout_user_fits. lia.
+  - intros ws. constructor.
+  - eapply Forall_impl; [|exact B2]. cbn. intros; lia.
+Qed.
